@@ -61,6 +61,7 @@ static int call_op(binson_parser *p, const uint8_t *doc, size_t size, const char
     bool gated = !strcmp(op, "v") || !strcmp(op, "rs");
     if (!gated) { p->cb = counting_cb; p->cb_context = &cb; }
     bool top_obj = t->sp > 0 && t->stk[t->sp-1] == 'O';
+    rec_watchdog(30);
     if      (!strcmp(op, "n"))  ret = binson_parser_next(p);
     else if (!strcmp(op, "ne")) ret = binson_parser_next_ensure(p, (binson_type) ty);
     else if (!strcmp(op, "io")) ret = binson_parser_go_into_object(p);
@@ -80,6 +81,7 @@ static int call_op(binson_parser *p, const uint8_t *doc, size_t size, const char
     else if (!strcmp(op, "v"))  ret = binson_parser_verify(p);
     else if (!strcmp(op, "rs")) ret = binson_parser_reset(p);
     else if (!strcmp(op, "gn")) ret = binson_parser_get_name(p) != NULL;
+    alarm(0);
     if (!gated && p->cb == counting_cb) { p->cb = saved; p->cb_context = sctx; }
     /* get_name SETS an error when there is no name: ask only when the level really is an object level */
     bool lvl_obj = p->error_flags == BINSON_ERROR_NONE && p->depth <= p->max_depth && (p->state[p->depth > 0 ? p->depth - 1 : 0].flags & 0x3U) != 0;
@@ -175,6 +177,9 @@ int main(int argc, char **argv)
         fprintf(OUTF, "{\"e\":\"I\",\"root\":\"%c\",\"maxd\":%d,\"fill\":%d,\"reuse\":%d,\"valid\":%d", root, maxd, fill, reuse ? 1 : 0, valid_gen);
         ev_bytes("buf", doc, x.n);
         fprintf(OUTF, ",\"ret\":%d,\"err\":%d}\n", ret, (int) p->error_flags); nevents++;
+        /* every document is verified first (C02 on every random / mutated document); a successful
+         * verify leaves a fresh parser, so the walk below is unaffected */
+        { track_t t0; memset(&t0, 0, sizeof t0); t0.fresh = true; call_op(p, doc, x.n, "v", NULL, 0, 0, &t0); }
         walk(&g, p, doc, x.n, root, kind == 2, 4 + (int) rng_below(&r, 60));
         if (rng_chance(&r, 1, 3)) {           /* second pass on the same object after reset/verify (C12) */
             track_t t; memset(&t, 0, sizeof t); t.fresh = true;
